@@ -426,6 +426,57 @@ def sp_isfinite(eng, node, st):
     return vbool(True)
 
 
+def sp_count_above(eng, node, st):
+    """count_above(A, t): number of entries of A whose magnitude exceeds t (same model as np.sum(np.abs(A) > t))"""
+    from . import models
+    a = eng.ev(node.args[0], st)
+    t = eng.ev(node.args[1], st)
+    ab = models.np_abs(eng, st, [a], {}, node)
+    cmp = models.arr_compare(eng, st, ast.Gt(), ab, t, node)
+    return models.np_sum(eng, st, [cmp], {}, node)
+
+
+def sp_trace(eng, node, st):
+    from . import models
+    return models.np_trace(eng, st, [eng.ev(node.args[0], st)], {}, node)
+
+
+def sp_idict(eng, node, st):
+    """dict_get(d, k) / dict_has(d, k) on an int->int table"""
+    d = eng.ev(node.args[0], st)
+    k = to_int(eng.ev(node.args[1], st))
+    if node.func.id == 'dict_has':
+        return vbool(z3.Select(st.heap.rd('set:', d.t), k))
+    return vint(z3.Select(st.heap.rd('el:int', d.t), k))
+
+
+def sp_runsum(eng, node, st):
+    """runsum(labels, lambda k: cp(k), i): sum of cp(label) over the first points of maximal runs among the first i labels
+    (the first point always starts a run: the label before it is -1)"""
+    from . import models
+    labels = eng.ev(node.args[0], st)
+    i = to_int(eng.ev(node.args[2], st))
+    names, consts, saved = _bind_lambda(eng, node.args[1], st)
+    try:
+        body = eng.ev(node.args[1].body, st)
+    finally:
+        _unbind(st, saved)
+    models._CUR[0] = st
+    cp = models.lam(consts, to_int(body))
+    la = eng.list_arr(st, labels)
+    f = eng.uf('runsum', la.sort(), cp.sort(), I, I)
+    key = 'axioms:runsum:%d:%d' % (la.get_id(), cp.get_id())
+    if key not in st.ghost:
+        st.ghost[key] = True
+        m, n = z3.Int(fresh_name('rm')), z3.Int(fresh_name('rn'))
+        prev = z3.If(m == 0, z3.IntVal(-1), z3.Select(la, m - 1))
+        st.pc.append(f(la, cp, 0) == 0)
+        body = z3.Implies(z3.And(n == m + 1, m >= 0),
+                          f(la, cp, n) == f(la, cp, m) + z3.If(z3.Select(la, m) != prev, z3.Select(cp, z3.Select(la, m)), 0))
+        st.pc.append(models.forall_p([m, n], body, [z3.MultiPattern(f(la, cp, m), f(la, cp, n))]))
+    return vint(f(la, cp, i))
+
+
 def sp_transpose(eng, node, st):
     from . import models
     return models.transpose(eng, st, eng.ev(node.args[0], st))
@@ -441,7 +492,7 @@ def sp_cnt(eng, node, st):
     return vint(models.cnt(eng, st, a)(a, k, p))
 
 
-SPEC_BUILTINS = dict(cnt=sp_cnt, psum=sp_psum, rsum=sp_rsum, norm=sp_norm, norm2d=sp_norm2d, sqrt=sp_sqrt, matmul=sp_matmul, ln=sp_ln, pi=sp_pi, isfinite=sp_isfinite, task_theta=sp_task_theta, spd_compressed_task=sp_spd_task, logdet=sp_logdet, is_spd=sp_is_spd, copyof=sp_copyof, rows_of=sp_rows_of, cov=sp_cov, colmean=sp_colmean, transpose=sp_transpose, eigh_of=sp_eigh_of, forall=sp_forall, exists=sp_exists, implies=sp_implies, ite=sp_ite, old=sp_old,
+SPEC_BUILTINS = dict(cnt=sp_cnt, psum=sp_psum, rsum=sp_rsum, norm=sp_norm, norm2d=sp_norm2d, sqrt=sp_sqrt, matmul=sp_matmul, count_above=sp_count_above, trace=sp_trace, dict_get=sp_idict, dict_has=sp_idict, runsum=sp_runsum, ln=sp_ln, pi=sp_pi, isfinite=sp_isfinite, task_theta=sp_task_theta, spd_compressed_task=sp_spd_task, logdet=sp_logdet, is_spd=sp_is_spd, copyof=sp_copyof, rows_of=sp_rows_of, cov=sp_cov, colmean=sp_colmean, transpose=sp_transpose, eigh_of=sp_eigh_of, forall=sp_forall, exists=sp_exists, implies=sp_implies, ite=sp_ite, old=sp_old,
                      fresh=sp_fresh, allocated=sp_allocated, in_set=sp_in_set, same=sp_same, unchanged=sp_unchanged, isnone=sp_isnone, real=sp_real,
                      eqcontent=sp_eqcontent, let=sp_let, alloc_now=sp_alloc)
 
@@ -745,6 +796,9 @@ def havoc_target(eng, st, tgt):
             n = z3.Int(fresh_name('hcard'))
             st.assume(n >= 0)
             st.heap.wr('len', v.t, n)
+        elif k[0] == 'idict':
+            st.heap.wr('set:', v.t, z3.Const(fresh_name('hkeys'), z3.ArraySort(I, B)))
+            st.heap.wr('el:int', v.t, z3.Const(fresh_name('hvals'), z3.ArraySort(I, I)))
         elif k[0] == 'ddict':
             st.heap.wr('el:ref', v.t, z3.Const(fresh_name('hdd'), z3.ArraySort(I, I)))
         elif k[0] == 'pdict':
